@@ -94,7 +94,21 @@ func TestVReplay(t *testing.T) {
 	defer cancel()
 	cmd := exec.CommandContext(ctx, "go", args...)
 	cmd.Dir = ld.repo
-	cmd.Env = append(os.Environ(), "VSYM_MODEL="+modelPath, "VSYM_REPO="+ld.repo, "GOFLAGS=-mod=mod", "GOPROXY=off", "GOSUMDB=off", "GOTOOLCHAIN=local")
+	tzEnv := "TZ=UTC"
+	if f.Model != nil {
+		if h, ok := f.Model.Scalars["tz.hours"]; ok {
+			hh := int64(h)
+			// Etc/GMT-3 is UTC+3 (POSIX sign convention)
+			if hh > 0 {
+				tzEnv = fmt.Sprintf("TZ=Etc/GMT-%d", hh)
+			} else if hh < 0 {
+				tzEnv = fmt.Sprintf("TZ=Etc/GMT+%d", -hh)
+			}
+		}
+	}
+	cmdline = strings.Replace(cmdline, "&& VSYM_MODEL", "&& "+tzEnv+" VSYM_MODEL", 1)
+	os.WriteFile(filepath.Join(dir, "cmd.txt"), []byte(cmdline+"\n"), 0o644)
+	cmd.Env = append(os.Environ(), tzEnv, "VSYM_MODEL="+modelPath, "VSYM_REPO="+ld.repo, "GOFLAGS=-mod=mod", "GOPROXY=off", "GOSUMDB=off", "GOTOOLCHAIN=local")
 	out, err := cmd.CombinedOutput()
 	txt := string(out)
 	os.WriteFile(filepath.Join(dir, "output.txt"), out, 0o644)
